@@ -157,7 +157,11 @@ func c20readBack(rep *vh.Report, g *c20gen, img []byte, want []*c20entry, what s
 		return map[string]interface{}{"image": vh.Hex(img[:min(len(img), 400)]), "case": what}
 	}, func() {
 		var src io.Reader = &scriptReader{data: img, every: 1 + g.r.Intn(600), errAt: -1}
-		if g.r.Chance(1, 3) {
+		if g.r.Chance(1, 4) {
+			// a source that hands over as much as it is asked for in one go (a file, a memory image)
+			src = bytes.NewReader(img)
+			rep.Count("logs_read_from_a_source_serving_large_blocks", 1)
+		} else if g.r.Chance(1, 3) {
 			// the caller hands over its own buffered reader, of any size
 			src = bufio.NewReaderSize(src, []int{16, 64, 256, 511, 512, 4096}[g.r.Intn(6)])
 			rep.Count("logs_read_through_caller_bufio", 1)
@@ -270,6 +274,11 @@ func TestC20(t *testing.T) {
 		if long {
 			n = 150 + g.r.Intn(200) // well beyond 4096 bytes
 		}
+		huge := h%100 == 19
+		if huge {
+			n = 6000 + g.r.Intn(500) // a log of a few hundred KiB: beyond any buffer a reader might reasonably use
+			long = true
+		}
 		var entries []*c20entry
 		for i := 0; i < n; i++ {
 			entries = append(entries, g.entry(true))
@@ -286,6 +295,17 @@ func TestC20(t *testing.T) {
 		guard(rep, "what=panic", func() interface{} { return "writer history" }, func() {
 			for i, e := range entries {
 				rep.Eval(1)
+				if huge && i%500 != 499 && i != len(entries)-1 && e.bad == "" {
+					// the few-hundred-KiB log: the file is compared with the image every 500 entries and at the end
+					if err := w.Write(&tlog.Entry{Time: e.t, Frame: e.frame()}); err != nil {
+						rep.Violation("what=image", "a well-formed entry was refused: "+err.Error(), vh.Hex(e.image))
+						return
+					}
+					image = append(image, e.image...)
+					accepted = append(accepted, e)
+					bounds = append(bounds, len(image))
+					continue
+				}
 				before := len(rw.all())
 				if e.bad == "not-in-dialect" && g.genv == nil {
 					e.bad = "no-dialect"
@@ -333,6 +353,10 @@ func TestC20(t *testing.T) {
 		if len(image) > 3000 && !vh.Thorough() {
 			step = 53
 		}
+		if huge {
+			step = len(image)/40 + 1
+			rep.Count("logs_longer_than_128_KiB", 1)
+		}
 		for cut := 0; cut < len(image); cut += step {
 			k := 0
 			for k+1 < len(bounds) && bounds[k+1] <= cut {
@@ -349,7 +373,7 @@ func TestC20(t *testing.T) {
 			c20readBack(rep, g, image[:cut], accepted[:k], "cut@"+rel)
 		}
 		// (4) write error at the k-th underlying Write
-		if !long || vh.Thorough() {
+		if (!long || vh.Thorough()) && !huge {
 			calls := rw.n
 			for k := 1; k <= calls; k++ {
 				rep.Eval(1)
